@@ -215,4 +215,29 @@ theorem TabInv.purge {S ordered f A} (h : TabInv S ordered f A) (L : Nat) (hfL :
   have : (S.concSet e).ssn = BitVec.ofNat 16 e.1 := rfl
   rw [this, sna16LTE_ofNat _ _ (by omega) (by omega)]
 
+/-! ### unordered DATA: inside a half-space window "later than the new cumulative TSN" is monotone along a TSN-sorted slice -/
+
+theorem sna32GT_add_left (t a b : BitVec 32) : sna32GT (t + a) (t + b) = sna32GT a b := by
+  rw [Bool.eq_iff_iff, Sna.gt32_iff, Sna.gt32_iff]
+  have : t + a - (t + b) = a - b := by bv_omega
+  rw [this]
+
+/-- TSNs `t0 + o` with strictly increasing offsets `o < 2^31` and a cumulative point `t0 + τ`, `τ < 2^31`. -/
+theorem unordered_window_mono (t0 : BitVec 32) (τ : Nat) (hτ : τ < 2^31) (cs : List Chunk) (offs : List Nat)
+    (hmap : cs.map (·.tsn) = offs.map (fun o => t0 + BitVec.ofNat 32 o))
+    (hs : offs.Pairwise (· < ·)) (hlt : ∀ o ∈ offs, o < 2^31) :
+    cs.Pairwise (fun a b => sna32GT a.tsn (t0 + BitVec.ofNat 32 τ) = true → sna32GT b.tsn (t0 + BitVec.ofNat 32 τ) = true) := by
+  have hp : (cs.map (·.tsn)).Pairwise (fun a b => sna32GT a (t0 + BitVec.ofNat 32 τ) = true →
+      sna32GT b (t0 + BitVec.ofNat 32 τ) = true) := by
+    rw [hmap, List.pairwise_map]
+    refine List.Pairwise.imp_of_mem ?_ hs
+    intro a b ha hb hab
+    have h1 := hlt a ha
+    have h2 := hlt b hb
+    rw [sna32GT_add_left, sna32GT_add_left, sna32GT_ofNat _ _ (by omega) (by omega),
+      sna32GT_ofNat _ _ (by omega) (by omega)]
+    simp only [decide_eq_true_eq]
+    omega
+  exact List.pairwise_map.1 hp
+
 end Reasm
